@@ -67,6 +67,9 @@ unsafe impl<T: IoBufMut, S: AsFd> OpCode for Read<T, S> {
             slice.ptr() as _,
             slice.len().try_into().unwrap_or(u32::MAX),
         )
+        // -1: use and advance the file position like read(2); 0 would restart a
+        // regular file at its beginning on every call
+        .offset(u64::MAX)
         .build()
         .into()
     }
@@ -102,6 +105,7 @@ unsafe impl<T: IoVectoredBufMut, S: AsFd> OpCode for ReadVectored<T, S> {
             control.slices.as_ptr() as _,
             control.slices.len().try_into().unwrap_or(u32::MAX),
         )
+        .offset(u64::MAX)
         .build()
         .into()
     }
@@ -117,6 +121,7 @@ unsafe impl<T: IoBuf, S: AsFd> OpCode for Write<T, S> {
             slice.as_ptr(),
             slice.len().try_into().unwrap_or(u32::MAX),
         )
+        .offset(u64::MAX)
         .build()
         .into()
     }
@@ -135,6 +140,7 @@ unsafe impl<T: IoVectoredBuf, S: AsFd> OpCode for WriteVectored<T, S> {
             control.slices.as_ptr() as _,
             control.slices.len().try_into().unwrap_or(u32::MAX),
         )
+        .offset(u64::MAX)
         .build()
         .into()
     }
